@@ -8,14 +8,19 @@ import binascii
 import vcommon as V
 
 META = dict(
-    text="Lean 4 theorems prove on a model of the VM's capture/restore discipline that, for ANY intermediate state reached at any call depth, the error exit of Run returns an interpreter that was at rest to rest (restore_depths, run_error_at_rest), and that the restored state equals the captured one, contents included, whenever execution stayed above the captured depths (restore_exact, run_error_exact). Facts regenerated from the Go source on every run and closed by `decide` over the whole table tie the model to the code: capture and restore cover the same six components, every error exit of every function that captures the control state restores it first, and no Generate* call in the compiler drops its error result. What the model does not carry (that the real instruction set satisfies the frame condition; that globals equal those of the prefix run) is decided on the real code by failure injection at every reachable call (k-th call for every k) x 9 failure kinds with a twin-interpreter comparison.",
-    note="Trusted: Lean kernel, axioms propext/Classical.choice/Quot.sound; the extractor (syntactic: statements of restoreControlState, fields of captureControlState, error returns after a capture, dropped error results of Generate* calls); the `contain` harness (differential testing: the generator computes the prefix program from the evaluation order of the forms it emits). `Extends` (nothing below the captured depth is touched) is a hypothesis of restore_exact, not proved for the real instruction set.",
-    technique="Lean 4 proof over a capture/restore model + decide over regenerated source tables + failure-injection/twin correspondence",
-    design_ref="DESIGN.md §7 C05",
+    text="Lean 4 theorems on the EXECUTABLE VM model (Model/VM.lean, the model compared with the Go interpreter text by text on every run) prove, with no hypothesis on state, code, fuel or nesting depth: when Run/runLoop ends with an error — raised at any depth of re-entry (callExpr→evalCallExpr→nested→run, callUser→builtin→apply/map/force→run) — the data, scope and address stacks have exactly the sizes captured at entry, curfunc is restored, the pc is parked behind the function, and the scope-stack object set aside by lazy forces is the one of entry (vm_run_error_at_rest; the last part by induction over all 13 mutually recursive VM functions, allKeeps); a failing text given to an interpreter at rest leaves it at rest and usable with the four depths 0,1,0,0 (vm_text_error_at_rest, vm_text_error_depths; the loop-record stack is handed back balanced by all eight compile functions and left alone by all 13 VM functions), a compile error runs nothing. The stack effect of each of the 25 non-re-entrant instructions of the real instruction set is proved for every state and outcome (vm_instr_effect) and gives the frame condition instruction by instruction (vm_instr_frame); the restored stacks EQUAL the captured ones whenever the state at the fault still stands on them (vm_run_error_exact), and concrete counterexamples show that this hypothesis cannot be dropped (TruncateToSize pads with nil cells; sizes that fit are not enough). Nothing but the control state is rolled back (defs_prefix). The earlier theorems on the small capture/restore model and the facts regenerated from the Go source (capture and restore cover the same six components; every error exit of every function that captures restores first; no Generate* call drops its error) are kept. On the real code the property is decided by failure injection at every reachable call (k-th call, every k) x 9 kinds with a twin interpreter, now also reading pc/curfunc and the bottom cell of the scope stack; a second op family written in the core language runs the same failing history on the VM model (impl vs model: class, value, four depths, pc/curfunc, scope-stack bottom, follow-up battery) and the twin history on the reference evaluator (impl vs spec).",
+    note="Trusted: Lean kernel, axioms propext/Classical.choice/Quot.sound; the extractor (syntactic); the `contain` harness (differential testing: the generator computes the prefix program from the evaluation order of the forms it emits); Spec/RefEval as twin oracle of the core ops. NOT proved: that the fault state of GENERATED code satisfies `Extends3` (nothing below the captured depths was touched) — it is a hypothesis of vm_run_error_exact; the full statement VmErrorAtRestExact is proved except for the content of the one scope cell at top level (vm_error_at_rest_exact_partial). Missing for it: C04's RunAtRest, the simulation between vm_instr_effect and C04's abstract checker_sound (room at every pc of a balanced listing) through the re-entrant instructions, GenBalanced for `for`/function bodies.",
+    technique="Lean 4 proof over the executable VM model (induction on fuel; all-13-functions invariant; per-instruction stack-effect table) + capture/restore model + decide over regenerated source tables + failure-injection/twin correspondence (impl vs VM model vs reference evaluator)",
+    design_ref="DESIGN.md §7 C05; notes/C05.md",
 )
 
 def decode(op):
     t = op.split(" ")
+    if len(t) >= 8 and t[1] == "core":
+        un = lambda h: [x.replace("~", " ") for x in h.split("|")]
+        a, b = un(t[5]), un(t[6])
+        return {"kind": "core-" + t[7], "site": t[2], "count": t[3], "setup": a[0], "program": a[1],
+                "prefix_candidates": [b[1]], "followups": a[2:]}
     def d(h):
         try:
             return "" if h == "-" else binascii.unhexlify(h).decode()
@@ -30,7 +35,8 @@ def run(rep):
     prep = V.prepare(["ZygoVerif.Props.C05"])
     V.lean_phase(rep, prep, "ZygoVerif.Props.C05")
     rep.assumptions += [
-        "the frame condition `Extends` is a hypothesis of restore_exact/run_error_exact (it is what C04's balance discipline provides); restore_depths/run_error_at_rest need no hypothesis",
+        "the frame condition (`Extends` on the control model, `Extends3` at the fault state on the VM model) is a hypothesis of the exactness theorems (it is what C04's balance discipline provides); the size/function/pc/scope-stack-object theorems need no hypothesis",
+        "core ops: the failure is written in the program text (k-th dynamic execution of a site told apart by a counter global); the twin oracle of the spec column is Spec/RefEval on setup|prefix|follow-ups",
         "host functions used for injection are registered through the public AddFunction API",
         "a compile error of a nested call argument surfaces when the call executes (arguments are compiled lazily); every 'just before an enclosing form starts' prefix is accepted as 'the part that ran before the failure'",
     ]
@@ -43,7 +49,7 @@ def run(rep):
         d = decode(op)
         return "contain %s site=%s count=%s :: %s" % (d.get("kind"), d.get("site"), d.get("count"), d.get("program", "").strip())
     bad_spec, bad_model = V.correspondence(rep, "contain", rows, stats, keyfn=keyfn,
-                                           nontrivial=lambda op, impl: not op.startswith("contain none"))
+                                           nontrivial=lambda op, impl: not (op.startswith("contain none") or op.startswith("contain core 0 ")))
     # make the replays readable: add the decoded program to every violation written
     for (path, _) in rep.violations:
         try:
@@ -57,5 +63,7 @@ def run(rep):
     rep.coverage["rule"] = ("programs generated over begin/let/letseq/newScope/cond/and/+/list/array/hash/infix/fn/defn/apply/map/eval/lazy/for/recursion "
                             "(tail and non-tail); for every reachable dynamic call of the host function `boom` (k-th call, every k up to a cap) the kinds err and panic, "
                             "plus one sampled site per program for undef/arity/typeerr/evalcompile/loadcompile/macroexp, plus a parse error and a fault-free control; "
+                            "core ops (kind `core`): programs of the core language only over begin/+/let/letseq/newScope/cond/and/array/list/fn/defn/apply/map/lazy+force/for/recursion, "
+                            "failure (unbound symbol / arity / rejected operands) at the k-th dynamic execution of a site for every reachable k (cap 8), the same history run on the VM model and the twin history on the reference evaluator; "
                             "non-trivial = an op with an injected failure")
     V.proof_break_resolution(rep, bool(bad_spec))
